@@ -27,6 +27,25 @@ var lowOrder = []string{
 	"eeffffffffffffffffffffffffffffffffffffffffffffffffffffffffffff7f",
 }
 
+func init() {
+	for _, h := range append([]string(nil), lowOrder...) {
+		b := hx.UnHex(h)
+		b[31] |= 0x80 // non-canonical alias: bit 255 is ignored by X25519
+		lowOrder = append(lowOrder, hx.Hex(b))
+	}
+}
+
+// forceLow makes the next box / precompute op use a low-order peer key (every box-family session has one)
+var forceLow bool
+
+func wantLow(r *hx.Rand, num, den int) bool {
+	if forceLow {
+		forceLow = false
+		return true
+	}
+	return r.Chance(num, den)
+}
+
 func dh(priv, pub []byte) string {
 	k, err := ecdh.X25519().NewPrivateKey(priv)
 	if err != nil {
@@ -114,7 +133,7 @@ func genLine(g *hx.Gen, kind int) string {
 		case 5:
 			apriv, bpriv := r.Bytes(32), r.Bytes(32)
 			apub, bpub := pubOf(apriv), pubOf(bpriv)
-			if r.Chance(1, 5) { // B announces a low-order public key
+			if wantLow(r, 1, 5) { // B announces a low-order public key
 				bpub = hx.UnHex(hx.Pick(r, lowOrder))
 				g.Stat("precompute.low-order-peer")
 			}
@@ -123,7 +142,7 @@ func genLine(g *hx.Gen, kind int) string {
 		case 6, 7, 8:
 			priv := r.Bytes(32)
 			pub := pubOf(r.Bytes(32))
-			if r.Chance(1, 8) {
+			if wantLow(r, 1, 8) {
 				pub = hx.UnHex(hx.Pick(r, lowOrder))
 				g.Stat("box.low-order-peer")
 			}
@@ -247,6 +266,7 @@ func gen(g *hx.Gen) {
 		fam := hx.Pick(r, families)
 		k := r.Range(2, 5)
 		var lines []string
+		lowDone := false
 		for j := 0; j < k; j++ {
 			var l string
 			if j > 0 && r.Chance(1, 5) {
@@ -254,7 +274,12 @@ func gen(g *hx.Gen) {
 				l = strings.TrimSuffix(l, " fresh=1")
 				g.Stat("session.repeat-contents")
 			} else {
-				l = genLine(g, hx.Pick(r, fam))
+				kind := hx.Pick(r, fam)
+				if !lowDone && (kind == 5 || (kind >= 6 && kind <= 8)) {
+					forceLow, lowDone = true, true
+					g.Stat("session.forced-low-order-peer")
+				}
+				l = genLine(g, kind)
 			}
 			if r.Chance(1, 6) {
 				l += " fresh=1"
@@ -318,23 +343,20 @@ func execOp(o hx.Op, a *arena) string {
 	case "sbopen":
 		return openRes(secretbox.Open(out, in("box"), a.K24("nonce", o.Hex("nonce")), k32("key")))
 	case "precomp":
-		s1, s2 := a.K32("shared1", nil), a.K32("shared2", nil)
-		a.tr = a.tr[:len(a.tr)-2] // outputs, not inputs
+		s1, s2 := a.G32("shared1"), a.G32("shared2") // out-parameters: pre-filled with non-zero garbage
 		box.Precompute(s1, k32("bpub"), k32("apriv"))
 		box.Precompute(s2, k32("apub"), k32("bpriv"))
 		return hx.Hex(s1[:]) + " " + hx.Hex(s2[:])
 	case "bxseal":
 		if o.Int("pre") == 1 {
-			s := a.K32("shared", nil)
-			a.tr = a.tr[:len(a.tr)-1]
+			s := a.G32("shared")
 			box.Precompute(s, k32("pub"), k32("priv"))
 			return hx.Hex(box.SealAfterPrecomputation(out, in("msg"), a.K24("nonce", o.Hex("nonce")), s))
 		}
 		return hx.Hex(box.Seal(out, in("msg"), a.K24("nonce", o.Hex("nonce")), k32("pub"), k32("priv")))
 	case "bxopen":
 		if o.Int("pre") == 1 {
-			s := a.K32("shared", nil)
-			a.tr = a.tr[:len(a.tr)-1]
+			s := a.G32("shared")
 			box.Precompute(s, k32("pub"), k32("priv"))
 			return openRes(box.OpenAfterPrecomputation(out, in("box"), a.K24("nonce", o.Hex("nonce")), s))
 		}
